@@ -79,6 +79,16 @@ def make_mesh(cfg):
         A3full = A3full @ np.diag([-1.0, 1.0, 1.0])
         A = A3full
         b = np.array([1.3, -0.2, 0.0 if dim == 2 else 0.1])
+    if var == "micro":
+        # the same problem in small length units (coordinates x 2^-24 ~ 6e-8, exact in floats): absolute float tolerances on geometric
+        # quantities (np.allclose / isclose defaults of 1e-8) must not decide anything about a distorted element
+        A3full = np.eye(3)
+        if dim == 2:
+            A3full[:2, :2] = A2
+        else:
+            A3full = A3.copy()
+        A = A3full * 2.0 ** -24
+        b = np.array([0.3, -0.2, 0.0 if dim == 2 else 0.1]) * 2.0 ** -24
     if var in ("renum", "affine+renum"):
         rnd = random.Random(harness.seed() + 11)
         perm = list(range(mesh.Nn))
@@ -406,6 +416,7 @@ def main():
             {"sim": "elastic", "elem": "TRI6", "law": "iso_stress", "variant": "mirror"}, {"sim": "elastic", "elem": "HEXA8", "law": "iso", "variant": "mirror"},
             {"sim": "thermal", "elem": "QUAD4", "variant": "mirror"}, {"sim": "thermal", "elem": "MIXED", "variant": "affine"},
             {"sim": "elastic", "elem": "TRI3", "law": "iso_strain", "variant": "tie"}, {"sim": "elastic", "elem": "QUAD8", "law": "trans", "variant": "tie"},
+            {"sim": "elastic", "elem": "QUAD4", "law": "iso_stress", "variant": "micro"}, {"sim": "thermal", "elem": "HEXA8", "variant": "micro"},
             {"sim": "thermal", "elem": "SEG3"}, {"sim": "thermal", "elem": "TRI10", "variant": "affine"},
             {"sim": "thermal", "elem": "QUAD9", "variant": "renum"}, {"sim": "thermal", "elem": "TETRA10", "variant": "plain"},
         ]
@@ -413,6 +424,8 @@ def main():
         laws2 = ["iso_stress", "iso_strain", "trans", "ortho", "aniso"]
         laws3 = ["iso", "trans", "ortho", "aniso"]
         variants = ["plain", "affine", "renum", "affine+renum", "mirror"]
+        for et_, sim_ in (("QUAD4", "elastic"), ("QUAD8", "elastic"), ("HEXA8", "elastic"), ("QUAD9", "thermal"), ("HEXA20", "thermal"), ("PRISM6", "thermal"), ("TRI6", "elastic")):
+            configs.append({"sim": sim_, "elem": et_, "variant": "micro", **({"law": "iso_stress" if et_ in ("QUAD4", "QUAD8", "TRI6") else "iso"} if sim_ == "elastic" else {})})
         k = 0
         for et in ["TRI3", "TRI6", "TRI10", "TRI15", "QUAD4", "QUAD8", "QUAD9", "MIXED"]:
             for law in laws2:
